@@ -96,7 +96,7 @@ VARIABLES
   req,     \* the request
   cb,      \* the result of the authorization callback
   pc,
-  actual,  \* wms: the odict `actual_layers` (its keys, in order)
+  actual,  \* wms: the names of the layers to draw, in order (GetMap: with repetitions) / the keys of the odict of query layers
   authz,   \* wms: what authorized_layers returned: [all |-> PERMIT_ALL_LAYERS?, lims |-> [name -> geometry id | "none"]]
   cov,     \* the request-wide / tile coverage: set of geometry ids ({} = none)
   out,     \* the response (and the upstream requests made for it)
@@ -261,12 +261,14 @@ IsOpaque(n) == IF n = "g" THEN \E m \in Range(Group) : Kinds[m] = "wmsO" ELSE Ki
 OdictSet(s, k) == IF k \in Range(s) THEN s ELSE Append(s, k)
 RECURSIVE AddAll(_, _)
 AddAll(s, ks) == IF ks = <<>> THEN s ELSE AddAll(OdictSet(s, Head(ks)), Tail(ks))
+\* GetMap draws the layers in the order of LAYERS, a layer that is named twice (by itself and through the group) twice;
+\* GetFeatureInfo collects the query layers in a dictionary keyed by the name (each once, at its first position)
 RECURSIVE Collect(_, _, _)
 Collect(acc, ls, prune) ==
   IF ls = <<>> THEN acc
   ELSE LET n == Head(ls)
            base == IF prune /\ IsOpaque(n) THEN <<>> ELSE acc
-       IN Collect(AddAll(base, LayersFor(n)), Tail(ls), prune)
+       IN Collect(IF prune THEN base \o LayersFor(n) ELSE AddAll(base, LayersFor(n)), Tail(ls), prune)
 
 \* wms.py:93-103 (map): the BBOX does not meet the extent of the request SRS: a blank image, nothing else happens
 \* (no layer is collected, the authorization callback is not asked, no upstream request)
